@@ -21,7 +21,10 @@
       when the step is positive (exclusive: any step).
     Missing for the full statement: the simulation between [MEval.mev] and [PyEval.cexpr]
     through [Convert.conv] for whole programs (function calls, environments, fuel); the
-    direct oracle (reference semantics vs python3 on the emitted text) explores it. *)
+    direct oracle (reference semantics vs python3 on the emitted text) explores it.
+    Classes (objects, constructors with parent calls, fields, methods, user exception classes)
+    are interpreted by both evaluators; no theorem about the class desugaring is proved, the
+    [Example]s at the end run a class program through both. *)
 From Coq Require Import List String Bool ZArith.
 From MambaModel Require Import model.Core model.SemDom model.Convert model.PySem model.PyEval model.MEval.
 From MambaModel Require Import proofs.PySemProps proofs.MEvalProps.
@@ -104,6 +107,53 @@ Example sample_program_agrees :
   exists c, gen false sample_program = Some c
             /\ run_mamba 60 sample_program = (["7"; "4"; "8"]%string, Done)
             /\ run_py 60 c = (["7"; "4"; "8"]%string, Done).
+Proof. eexists. split; [vm_compute; reflexivity|]. split; vm_compute; reflexivity. Qed.
+
+(** a class with a body field and a method, a child passing an argument on to its parent, a field
+    update, and a user exception class raised and handled through [Exception]: the reference
+    semantics (constructor arguments not passed on become fields) and the model of Python on the
+    desugared constructor agree *)
+Local Open Scope string_scope.
+Definition str_ty : nm := NM [TN false "Str" []].
+Definition sample_class_program : ast :=
+  let id x := A None (NId x) in
+  let prop o p := A None (NProp o p) in
+  A None (NBlock [
+    A None (NClass "P" [] [A None (NVarDef (id "x") (Some int_ty) None)] []
+      (Some (A None (NBlock [
+         A None (NVarDef (id "z") (Some int_ty) (Some (A None (NInt "5"))));
+         A None (NFunDef (id "get") [A None (NFunArg false (id "self") None None)] (Some int_ty)
+                   (Some (A None (NBin SAdd (prop (id "self") (id "x")) (prop (id "self") (id "z"))))))]))));
+    A None (NClass "Q" [] [A None (NVarDef (id "a") (Some int_ty) None); A None (NVarDef (id "b") (Some int_ty) None)]
+      [A None (NParent "P" [] [id "a"])] None);
+    A None (NClass "E" [] [A None (NVarDef (id "m") (Some str_ty) None)]
+      [A None (NParent "Exception" [] [id "m"])] None);
+    A None (NVarDef (id "o") None (Some (A None (NCall "Q" [] [A None (NInt "3"); A None (NInt "4")]))));
+    A None (NCall "print" [] [prop (id "o") (A None (NCall "get" [] []))]);
+    A None (NReassign (prop (id "o") (id "x")) (A None (NInt "7")) NAssign);
+    A None (NCall "print" [] [prop (id "o") (id "x"); prop (id "o") (id "b")]);
+    A None (NHandle (A None (NRaise (A None (NCall "E" [] [A None (NStr "boom" false)]))))
+      [A None (NCase (A None (NExprType (id "err") (Some (NM [TN false "Exception" []]))))
+                (A None (NCall "print" [] [id "err"])))])]).
+Example sample_class_program_agrees :
+  exists c, gen false sample_class_program = Some c
+            /\ run_mamba 60 sample_class_program = (["8"; "7 4"; "boom"]%string, Done)
+            /\ run_py 60 c = (["8"; "7 4"; "boom"]%string, Done).
+Proof. eexists. split; [vm_compute; reflexivity|]. split; vm_compute; reflexivity. Qed.
+
+(** an argument passed on to the parent is not a field under its own name: reading [o.a] has no
+    meaning in the reference semantics, and the emitted Python raises AttributeError *)
+Definition passed_on_program : ast :=
+  let id x := A None (NId x) in
+  A None (NBlock [
+    A None (NClass "P" [] [A None (NVarDef (id "x") (Some int_ty) None)] [] None);
+    A None (NClass "Q" [] [A None (NVarDef (id "a") (Some int_ty) None)] [A None (NParent "P" [] [id "a"])] None);
+    A None (NVarDef (id "o") None (Some (A None (NCall "Q" [] [A None (NInt "3")]))));
+    A None (NCall "print" [] [A None (NProp (id "o") (id "a"))])]).
+Example passed_on_argument_is_outside :
+  exists c, gen false passed_on_program = Some c
+            /\ run_mamba 60 passed_on_program = ([], Unsupported)
+            /\ run_py 60 c = ([], Uncaught "AttributeError").
 Proof. eexists. split; [vm_compute; reflexivity|]. split; vm_compute; reflexivity. Qed.
 
 Print Assumptions C01_implicit_return_partial.
